@@ -55,13 +55,13 @@ Other(d) == IF d = "c" THEN "s" ELSE "c"
 Class(s) == CASE s = "1301" -> "a" [] s = "1302" -> "b" [] s = "1303" -> "c" [] s = "1304" -> "d" [] OTHER -> "none"
 OtherSuite(s) == IF s = "1301" THEN "1302" ELSE "1301"
 
-VARIABLES suite, first, split, twoPkts, retry, zrtt, coalesce, cfApp, sfApp,   \* world
+VARIABLES suite, first, split, twoPkts, retry, zrtt, coalesce, cfApp, sfApp, z3,   \* world
           pc, chSent, retried, sgen, acked, nApp, nextId, dgId, expect, held, sn, retx,  \* environment / ground truth
           initFrom, off, frags, haveCR, suiteSeen, tlsKeys, earlyKeys,   \* QuicSession / QuicTlsSession
           epoch, lastPhase, gens, outbuf,
           kfTaken, hist
 
-world == <<suite, first, split, twoPkts, retry, zrtt, coalesce, cfApp, sfApp>>
+world == <<suite, first, split, twoPkts, retry, zrtt, coalesce, cfApp, sfApp, z3>>
 envv  == <<pc, chSent, retried, sgen, acked, nApp, nextId, dgId, expect, held, sn, retx>>
 implv == <<initFrom, off, frags, haveCR, suiteSeen, tlsKeys, earlyKeys, epoch, lastPhase, gens, outbuf>>
 vars  == <<world, envv, implv, kfTaken, hist>>
@@ -152,7 +152,10 @@ Send(d, pkts) ==
   /\ sn' = sn + 1
 
 ChFrames(order) == [i \in 1..Len(order) |-> F("crypto", "CH", order[i])]
-ZPkt(id) == P("Z", "c", 0, <<F("stream", id, 0)>>)
+\* a 0-RTT packet carries one STREAM frame, or (z3) three: the head and the tail of a first request on one stream and a second request on another
+\* stream (so that a later frame of the packet has a SMALLER stream offset than an earlier one)
+ZPkt(id) == P("Z", "c", 0, IF z3 THEN <<F("stream", id, 0), F("stream", id + 1, 0), F("stream", id + 2, 0)>> ELSE <<F("stream", id, 0)>>)
+ZN == IF zrtt THEN (IF z3 THEN 3 ELSE 1) ELSE 0
 
 \* pc: 1 = client Initial datagram(s) carrying the ClientHello, 2 = Retry, 3 = server flight, 4 = client finish,
 \*     5 = server HANDSHAKE_DONE, 6 = application phase
@@ -167,7 +170,7 @@ ClientHelloStep ==
                  ELSE <<P("I", "c", 0, SubSeq(fr, half + 1, Len(fr)))>> \o z
      IN /\ Send("c", pkts)
         /\ chSent' = chSent + 1
-        /\ nextId' = IF last THEN nextId + Len(z) ELSE nextId
+        /\ nextId' = IF last THEN nextId + ZN ELSE nextId
         /\ pc' = IF ~last THEN 1 ELSE IF retry /\ ~retried THEN 2 ELSE 3
   /\ UNCHANGED <<world, retx, retried, sgen, acked, nApp, kfTaken, held>>
 
@@ -289,6 +292,7 @@ Next == ClientHelloStep \/ RetryStep \/ ServerFlight \/ ClientFinish \/ ServerDo
 
 Init == /\ suite \in SuiteSet /\ first \in OfferFirst /\ split \in Splits /\ twoPkts \in BOOLEAN
         /\ retry \in Retries /\ zrtt \in ZeroRtts /\ coalesce \in BOOLEAN /\ cfApp \in BOOLEAN /\ sfApp \in BOOLEAN
+        /\ z3 \in (IF zrtt THEN BOOLEAN ELSE {FALSE})
         /\ (twoPkts => Len(split) >= 2)
         /\ (AllowEarlyGuess \/ ~zrtt \/ first = "same")            \* KF_EarlySuiteGuess excluded unless allowed
         /\ pc = 1 /\ chSent = 0 /\ retried = FALSE /\ sgen = [d \in Dir |-> 0] /\ acked = [d \in Dir |-> 0] /\ nApp = 0 /\ nextId = 1 /\ dgId = 1 /\ expect = <<>> /\ held = <<>> /\ sn = 1 /\ retx = 0
@@ -326,5 +330,5 @@ ExportMonotone == [][IsPrefix(Output, Output')]_vars
 View == <<world, envv, implv, kfTaken>>
 Emit == (EmitOn /\ Done) =>
   PrintT(ToJson([suite |-> suite, first |-> first, split |-> split, twoPkts |-> twoPkts, retry |-> retry, zrtt |-> zrtt,
-                 coalesce |-> coalesce, cfApp |-> cfApp, sfApp |-> sfApp, hist |-> hist, out |-> Output, kf |-> kfTaken]))
+                 coalesce |-> coalesce, cfApp |-> cfApp, sfApp |-> sfApp, z3 |-> z3, hist |-> hist, out |-> Output, kf |-> kfTaken]))
 =============================================================================
